@@ -68,6 +68,9 @@ class Acc(object):
             self.samples.extend(o.samples[:2])
 
 
+_SHARED = {'walker': None, 'recent': collections.deque(maxlen=12)}
+
+
 def check_text(acc, text, with_comments, w):
     from calmjs.parse.walkers import Walker
     acc.cases += 1
@@ -136,6 +139,28 @@ def check_text(acc, text, with_comments, w):
                         'walk(tree, %s) yields %d nodes, walk(tree) %d' % (
                             pname, len(w2), len(walked)))
             break
+    # ONE walker object used for every tree of this process (the trees of
+    # earlier cases are garbage by now): it must walk like a fresh one
+    sw = _SHARED.get('walker')
+    if sw is None:
+        sw = _SHARED['walker'] = Walker()
+    if not w.get('history'):
+        _SHARED['recent'].append([text, with_comments])
+    try:
+        shared = [id(n) for n in sw.walk(root)]
+        sfilt = [id(n) for n in sw.filter(root, PREDICATES[0][1])]
+    except Exception as e:
+        shared = sfilt = 'raises ' + type(e).__name__
+    if shared != [id(n) for n in walked] or sfilt != [
+            id(n) for n in walker.filter(root, PREDICATES[0][1])]:
+        w2 = dict(w)
+        w2['history'] = list(_SHARED['recent'])
+        acc.bag.add('C16|reused-walker-differs-from-fresh-walker', w2,
+                    'a Walker object that walked %d earlier trees yields '
+                    '%s, a fresh one %d nodes' % (
+                        len(_SHARED['recent']) - 1,
+                        '%d nodes' % len(shared) if isinstance(shared, list)
+                        else shared, len(walked)))
     # filter == walk then select; extract == n-th match or TypeError
     for pname, pred in PREDICATES:
         want = [id(n) for n in walked if pred(n)]
@@ -220,5 +245,10 @@ def run(tier, rep):
 
 def replay(w):
     acc = Acc()
+    for text, wc in w.get('history', [])[:-1]:
+        # the earlier trees of the worker, walked by the shared walker and
+        # dropped (the effect depends on the allocator reusing addresses)
+        check_text(Acc(), text, wc, {'text': text, 'with_comments': wc,
+                                     'history': True})
     check_text(acc, w['text'], w.get('with_comments', False), w)
     return [{'sig': s, 'detail': v[2]} for s, v in acc.bag.d.items()]
